@@ -1003,6 +1003,16 @@ fn extract(src: &Src, b: &Block, report: &mut Vec<serde_json::Value>, vacuity: b
         // struct / enum / type / const: fields pub, attrs dropped
         match f.item.unwrap() {
             syn::Item::Struct(s) => {
+                // R1: default type parameters (`M: MovingAverageConstructor = MA`) are dropped; every use names the parameter
+                for gp in s.generics.params.iter() {
+                    if let syn::GenericParam::Type(tp) = gp {
+                        if let (Some(eq), Some(def)) = (&tp.eq_token, &tp.default) {
+                            let (es, _) = range(eq.span());
+                            let (_, de) = range(def.span());
+                            col.push(es, de, String::new(), "R1");
+                        }
+                    }
+                }
                 if !keepvis {
                     vis_pub(&mut col, &s.vis, range(s.struct_token.span()).0);
                 }
